@@ -174,8 +174,12 @@ fn exec_nonid(input: &str, out: &mut CaseOut) {
     let got = get_req(&s, out);
     if is_some_id(&s) {
         out.stat("nonid:is_an_id_after_all");
-        if got.is_none() {
-            out.fail("id_not_found", format!("get_unit({s:?}) is None although it is an id"));
+        match got {
+            None => out.fail("id_not_found", format!("get_unit({s:?}) is None although it is an id")),
+            Some(u) if !u.ids.iter().any(|i| *i == s) => {
+                out.fail("id_of_other_unit", format!("get_unit({s:?}) returns {:?}, which does not list it among its ids", u.name()))
+            }
+            _ => {}
         }
     } else {
         out.stat("nonid:not_an_id");
@@ -299,6 +303,12 @@ pub fn generate(ctx: &mut Ctx) {
     let names: Vec<String> = all_units().iter().map(|u| u.name().to_string()).collect();
     for n in names.iter() {
         ctx.case("unit", &vx::h(n));
+    }
+    // every key of the lookup table: it resolves only if it is an identifier of the unit it leads to
+    let mut keys: Vec<String> = UNITS.keys().map(|k| k.to_string()).collect();
+    keys.sort();
+    for k in &keys {
+        ctx.case("nonid:key", &vx::h(k));
     }
     // strings that are (almost surely) no id
     let n_non = ctx.n(3000, 150_000);
